@@ -266,7 +266,14 @@ func (req *SrvReq) Process() {
 	srv := conn.Srv
 	tc := req.Tc
 
-	if tc.Fid != NOFID && tc.Type != Tattach {
+	namesfid := false
+	switch tc.Type {
+	case Twalk, Topen, Tcreate, Tread, Twrite, Tclunk, Tremove, Tstat, Twstat:
+		// these operate on a fid, and NOFID is never one
+		namesfid = true
+	}
+
+	if (tc.Fid != NOFID || namesfid) && tc.Type != Tattach {
 		srv.Lock()
 		req.Fid = conn.FidGet(tc.Fid)
 		srv.Unlock()
